@@ -190,13 +190,16 @@ func loopFacts(s *src, f *facts) {
 	shapes := []string{}
 	valueSrc := func(l *ast.CompositeLit) string {
 		v := s.str(litField(l, "Value"))
-		// find the nearest preceding `v, err := marshal(X)` in the enclosing case clause
-		cc := enclosing[*ast.CaseClause](hl, l)
+		// the nearest preceding `v, err := marshal(X)` in the handler literal (switch cases or an if-chain)
 		src := "?"
-		for _, a := range all[*ast.AssignStmt](cc, nil) {
+		var bestPos ast.Node
+		for _, a := range all[*ast.AssignStmt](hl, nil) {
 			if before(a, l) && len(a.Lhs) == 2 && s.str(a.Lhs[0]) == v {
 				if c, ok := a.Rhs[0].(*ast.CallExpr); ok && s.str(c.Fun) == "marshal" {
-					src = s.str(c.Args[0])
+					if bestPos == nil || before(bestPos, a) {
+						bestPos = a
+						src = s.str(c.Args[0])
+					}
 				}
 			}
 		}
@@ -221,7 +224,9 @@ func loopFacts(s *src, f *facts) {
 	// branch conditions
 	if hl != nil {
 		t := s.str(hl)
-		shapesOK = shapesOK && strings.Contains(t, "switch len(res)") &&
+		dispatch := strings.Contains(t, "switch len(res)") ||
+			(strings.Contains(t, "len(res) == 0") && strings.Contains(t, "len(res) == 1") && strings.Contains(t, "len(res) == 2"))
+		shapesOK = shapesOK && dispatch &&
 			strings.Contains(t, "res[0].Type().Implements(errorType) && !res[0].IsNil()") &&
 			strings.Contains(t, "res[1].Interface() == nil")
 	}
@@ -291,4 +296,20 @@ func loopFacts(s *src, f *facts) {
 		}
 	}
 	f.b("reqLoopExitsOnReadErr", rexits, s.pos(reqLoop))
+	declaredIn := func(loop *ast.ForStmt, typ string) bool {
+		if loop == nil {
+			return false
+		}
+		for _, st := range loop.Body.List {
+			if d, ok := st.(*ast.DeclStmt); ok && strings.Contains(s.str(d), typ) {
+				return true
+			}
+			if a, ok := st.(*ast.AssignStmt); ok && a.Tok.String() == ":=" && strings.Contains(s.str(a.Rhs[0]), typ) {
+				return true
+			}
+		}
+		return false
+	}
+	f.b("reqFrameFreshPerIteration", declaredIn(reqLoop, "utils.Request["), s.pos(reqLoop))
+	f.b("respFrameFreshPerIteration", declaredIn(respLoop, "utils.Response["), s.pos(respLoop))
 }
